@@ -468,7 +468,7 @@ def ch_manifest_lex(ctx, bodies_out: list | None = None) -> Channel:
         "& < > \" ' (or a typed-attribute comparison); distinct by full case"))
     rng = ctx.rng("manifest_lex")
     cases = corpus_cases() + fixed_cases()
-    n = ctx.scale(450, 6000)
+    n = ctx.scale(900, 6000)
     cases += [W.gen_case(rng, hostile=rng.random() < .8) for _ in range(n)]
     lex_lines, lex_meta = [], []
     for case in cases:
